@@ -16,6 +16,9 @@ func checkMonitors(sc *Scenario, impl *ImplRun) []MonitorViolation {
 	if impl.Panic != "" {
 		out = append(out, MonitorViolation{Property: "C04", Sig: "router-panic", What: "router panicked or deadlocked: " + impl.Panic})
 	}
+	if impl.CloseLatencyMs > 0 {
+		out = append(out, MonitorViolation{Property: "C06", Sig: "close-waits", What: fmt.Sprintf("Router.Close, called after every client had left, took %d ms of virtual time (it waited for something a client chose, e.g. a call timeout)", impl.CloseLatencyMs)})
+	}
 	for _, m := range impl.Mutated {
 		out = append(out, MonitorViolation{Property: "C12", Sig: "mutation-after-delivery", What: "message changed after delivery: " + m})
 	}
